@@ -524,7 +524,8 @@ def setup():
     for prop, plan in plans.PLANS.items():
         for tier in ("quick", "thorough"):
             for leg in plan["legs"][tier]:
-                cfgs.add(leg["cfg"])
+                if not leg.get("python"):
+                    cfgs.add(leg["cfg"])
     for c in sorted(cfgs):
         build(c)
     print("setup: built %s" % ", ".join(sorted(cfgs)))
